@@ -3,11 +3,74 @@ from props import tprops
 PID = 'C01'
 
 
+import json
+import os
+import subprocess
+
+from props.simple import copy_fn
+from vlib import runner
+from vlib.runner import Query
+
+HI = os.path.join(runner.VERIF, 'harness', 'h_c01i.py')
+
+
+def _imports_setup():
+    """materialise the project of the import-form programs and let real CPython execute each of them"""
+    root = os.path.join(runner.WORK, PID, 'proj')
+    os.makedirs(root, exist_ok=True)
+    os.environ['VERIF_C01_ROOT'] = root
+    h = runner.load_module(HI, 'h_c01i_setup')
+    h.materialise(root)
+    ok = []
+    for i, (rel, text) in enumerate(h.PROGRAMS):
+        mod = os.path.join(os.path.dirname(rel), 'prog%d' % i).replace('/', '.').lstrip('.')
+        r = subprocess.run(['/venv/bin/python', '-c', 'import importlib; importlib.import_module(%r)' % mod], cwd=root,
+                           env=dict(os.environ, PYTHONPATH=root), stdout=subprocess.PIPE, stderr=subprocess.PIPE)
+        ok.append(r.returncode == 0)
+    json.dump(ok, open(os.path.join(root, 'runs_ok.json'), 'w'))
+    return h, ok
+
+
+def _extra(rep, tier):
+    h, ok = _imports_setup()
+    src = open(HI).read()
+    qs = [Query('import_forms', src, 'check', 'main', 200, per_path=60, meta={'extra': True}, label='E'),
+          Query('import_forms__twin', src + '\n\n' + copy_fn(src, 'check', 'check__twin', 'case == 0', twin=True), 'check__twin',
+                'twin', 60, meta={'extra': True})]
+    rep.validation['import_programs_executed_by_cpython'] = sum(ok)
+    if sum(ok) < len(ok):
+        rep.harness_error('import-form programs that CPython could not execute: %r' % [i for i, x in enumerate(ok) if not x])
+    rep.functions_extra = ['scope.SourceScope.resolve_star_imports', 'scope.star_import_names', 'name.ImportedName.resolve',
+                           'project.Project.get_nmodule', 'linter.lint', 'assistant.assist']
+
+    def replay(q, args, kwargs):
+        import logging
+        logging.disable(logging.CRITICAL)
+        hh, ok2 = _imports_setup()
+        hh.RUNS_OK = ok2
+        bad = hh.problems(args[0])
+        if not bad:
+            return {'violated': False}
+        return {'violated': True, 'known': None, 'what': '%s in\n%s' % ('; '.join(bad), hh.PROGRAMS[args[0]][1]),
+                'replay': {'import_case': args[0]}}
+    return qs, replay
+
+
 def run(tier, seed):
-    return tprops.run(PID, tier, seed, explanation=EXPL, functions=FUNCS, bounds=BOUNDS, assumptions=[])
+    return tprops.run(PID, tier, seed, explanation=EXPL, functions=FUNCS, bounds=BOUNDS, assumptions=[], extra=_extra)
 
 
 def replay_file(obj):
+    if 'import_case' in obj:
+        h, ok = _imports_setup()
+        h.RUNS_OK = ok
+        bad = h.problems(obj['import_case'])
+        if bad:
+            print('VIOLATION property=%s replay=given' % PID)
+            print('  ' + '; '.join(bad))
+            return 1
+        print('not reproduced')
+        return 0
     return tprops.replay_file(PID, obj)
 
 
@@ -18,5 +81,5 @@ EXPL = ('CrossHair symbolic execution of the real nast.extract / Flow.names_at o
         'identifiers; every read that succeeds in some real CPython execution (reference semantics, exhaustive over '
         'branch / trip-count / raise decisions) must carry a flow (else lint says E42) and be visible in '
         'names_at(position) (else E02; the same table feeds name completion).')
-BOUNDS = ['C01 grammar without imports, match, del; loops <= 2 trips; call depth <= 3; executions are CPython-strict '
+BOUNDS = ['(E) 19 import-form programs (import / from / star / dotted / as / relative, project modules and stdlib, module / function / class level), executed by CPython first, through real lint() and assist()', 'C01 grammar without imports (symbolic part), match, del; loops <= 2 trips; call depth <= 3; executions are CPython-strict '
           '(a failing read raises NameError)']
